@@ -200,19 +200,26 @@ func lemmaCmpTrans(a, b, c Object) (ab, bc, ac int, eab, ebc, eac bool) {
 //@   modifies *
 //@   witness fnd = callresult1 after get#1
 //@   witness pos = callresult2 after get#1
-//@   ensures  where:: 0 <= pos && pos <= m.len && implies(fnd, pos < m.len && Cmp(smKey(m, pos), key) == 0)
-//@   ensures  update:: implies(fnd, mpLen(result) == m.len && forall(0, m.len, func(k int) bool { return mpKey(result, k) == smKey(m, k) && mpVal(result, k) == ite(k == pos, value, smVal(m, k)) }))
-//@   ensures  insertlen:: implies(!fnd, mpLen(result) == m.len + 1 && mpKey(result, pos) == key && mpVal(result, pos) == value)
-//@   ensures  insertlow:: implies(!fnd, forall(0, pos, func(k int) bool { return mpKey(result, k) == smKey(m, k) && mpVal(result, k) == smVal(m, k) }))
-//@   ensures  inserthigh:: implies(!fnd, forall(pos + 1, m.len + 1, func(k int) bool { return mpKey(result, k) == smKey(m, k - 1) && mpVal(result, k) == smVal(m, k - 1) }))
-//@   ensures  sorted:: mpSorted(result)
+//@   ensures  @C11 where:: 0 <= pos && pos <= m.len && implies(fnd, pos < m.len && Cmp(smKey(m, pos), key) == 0)
+//@   ensures  @C11 update:: implies(fnd, mpLen(result) == m.len && forall(0, m.len, func(k int) bool { return mpKey(result, k) == smKey(m, k) && mpVal(result, k) == ite(k == pos, value, smVal(m, k)) }))
+//@   ensures  @C11 insertlen:: implies(!fnd, mpLen(result) == m.len + 1 && mpKey(result, pos) == key && mpVal(result, pos) == value)
+//@   ensures  @C11 insertlow:: implies(!fnd, forall(0, pos, func(k int) bool { return mpKey(result, k) == smKey(m, k) && mpVal(result, k) == smVal(m, k) }))
+//@   ensures  @C11 inserthigh:: implies(!fnd, forall(pos + 1, m.len + 1, func(k int) bool { return mpKey(result, k) == smKey(m, k - 1) && mpVal(result, k) == smVal(m, k - 1) }))
+//@   ensures  @C11 sorted:: mpSorted(result)
+//@   ensures  @C06 noinplace:: memsame(keyValuePair) && memsame(Object)
+//@   ensures  @C06 freshbig:: implies(isType(result, *BigMap), freshref(result.(*BigMap)) && freshref(result.(*BigMap).kv))
+//@   loop 1 invariant @C06 memsame(keyValuePair) && memsame(Object)
 //@   loop 1 invariant i == pos && pos <= j && j <= m0.len && m.len == m0.len + 1 && m0.len + 1 <= 4
 //@   loop 1 invariant forall(0, j + 1, func(k int) bool { return smKey(m, k) == smKey(m0, k) && smVal(m, k) == smVal(m0, k) })
 //@   loop 1 invariant forall(j + 1, m0.len + 1, func(k int) bool { return smKey(m, k) == smKey(m0, k - 1) && smVal(m, k) == smVal(m0, k - 1) })
 //@   loop 1 decreases j
-//@   property C11
+//@   safety C11
+//@   property C11 C06
 
 // Data invariant of object values held in interfaces (what the constructors establish).
+// C06: value semantics.  seqSame/mpSame: the elements / pairs an existing value denotes are what they were.
+//@ define seqSame(o) = seqLen(o) == old(seqLen(o)) && forall(0, seqLen(o), func(k int) bool { return seqAt(o, k) == old(seqAt(o, k)) })
+//@ define mpSame(o) = mpLen(o) == old(mpLen(o)) && forall(0, mpLen(o), func(k int) bool { return mpKey(o, k) == old(mpKey(o, k)) && mpVal(o, k) == old(mpVal(o, k)) })
 //@ define wfMapObj(o) = implies(isMap(o), mpSorted(o))
 //@ define wfVal(o) = o != nil && wfArr(o)
 //@ define wfData(o) = wfVal(o) && wfMapObj(o)
@@ -227,6 +234,52 @@ func lemmaCmpTrans(a, b, c Object) (ab, bc, ac int, eab, ebc, eac bool) {
 //@   property C18 C14
 
 // ---- constants (C19): the checking setter refuses to rebind an all-upper-case name to a different value ----
+// Merging maps with + (C06): the operands' pairs stay as they were; what is written is storage allocated by the call.
+//@ func (*BigMap).Append
+//@   requires right != nil
+//@   modifies heap
+//@   nosafety
+//@   maypanic *
+//@   loop 1 invariant memsame(keyValuePair) && memsame(Object) && res != nil && freshref(res) && freshref(res.kv)
+//@   ensures  noinplace:: memsame(keyValuePair) && memsame(Object)
+//@   property C06
+
+// (*BigMap).Set writes its receiver in place (by design: callers hand it storage nobody else holds).
+//@ func (*BigMap).Set
+//@   modifies m.kv, elems(m.kv)
+//@   nosafety
+//@   maypanic *
+//@   ensures  isType(result, *BigMap) && result.(*BigMap) == m
+//@   ensures  freshref(m.kv) || sameblock(m.kv, old(m.kv))
+//@   property C06
+
+//@ func (*BigMap).Delete
+//@   modifies m.kv, elems(m.kv)
+//@   nosafety
+//@   maypanic *
+//@   ensures  notfound:: implies(!result1, memsame(keyValuePair))
+//@   property C06
+
+//@ func (SmallMap).Append
+//@   requires right != nil
+//@   modifies heap
+//@   nosafety
+//@   maypanic *
+//@   loop 1 invariant memsame(keyValuePair) && memsame(Object) && implies(isType(ires, *BigMap), freshref(ires.(*BigMap)) && freshref(ires.(*BigMap).kv))
+//@   loop 2 invariant memsame(keyValuePair) && memsame(Object) && res != nil && freshref(res) && freshref(res.kv)
+//@   ensures  noinplace:: memsame(keyValuePair) && memsame(Object)
+//@   property C06
+
+// Get writes the lookup bookkeeping (cantCache, getMiss), may cache a Reference in the receiver's store, and for the
+// name "info" builds fresh maps: its frame is trusted (the write audit cannot tell that Info's maps are fresh).
+//@ func (*Environment).Get
+//@   requires e != nil
+//@   modifies Environment.cantCache, Environment.getMiss, key MH:Str:Iface, key MV:Str:Iface
+//@   trustframe
+//@   nosafety
+//@   maypanic *
+//@   property C06
+
 //@ func (*Environment).CreateOrSet
 //@   requires e != nil
 //@   requires @C19 val != nil
